@@ -20,6 +20,7 @@ import (
 	fdohttp "github.com/fido-device-onboard/go-fdo/http"
 	"github.com/fido-device-onboard/go-fdo/kex"
 	"github.com/fido-device-onboard/go-fdo/protocol"
+	"github.com/fido-device-onboard/go-fdo/serviceinfo"
 
 	"verif/harness/internal/gen"
 	"verif/harness/internal/lab"
@@ -169,6 +170,37 @@ func c10HTTP(e *c10Env) {
 		return c10Shot{method: "POST", path: path, hdr: http.Header{"Content-Type": {"application/cbor"}}, body: body, cl: int64(len(body))}
 	}
 	mk := func(t int) string { return "/fdo/101/msg/" + strconv.Itoa(t) }
+
+	// (0) an honest device offering a cipher suite the tunnel does not implement (the COSE algorithm numbers around the
+	// registered ones: AES-CCM 10..13 and 30..33, ChaCha20 24, A128KW -3, unassigned ones): refused at HelloDevice, with an
+	// error message, by an owner that stays up
+	for _, id := range []int64{4, 10, 11, 12, 13, 24, 30, 31, 32, 33, -3, -17760702, -17760707, 1 << 40} {
+		known := false
+		for _, c := range allCiphers {
+			known = known || int64(c) == id
+		}
+		if known {
+			continue
+		}
+		first := ""
+		tap := &lab.Tap{Response: func(reqType uint8, status *int, hdr http.Header, body *[]byte) error {
+			if reqType == 60 && first == "" {
+				first = hdr.Get("Message-Type")
+			}
+			return nil
+		}}
+		res := step(func() error {
+			_, err := cw.w.TO2(e.ctx, cw.dev, nil, lab.TO2Opts{Kex: cw.suite, Cipher: kex.CipherSuiteID(id), Reuse: true,
+				Modules: map[string]serviceinfo.DeviceModule{"ping": &lab.PingDevice{}}}, tap)
+			return err
+		})
+		e.x.r.Case(c10Key("unsupported-cipher", id), true, "http:unsupported-cipher")
+		if res == "panic" || (first != "255" && first != "") {
+			e.x.r.Violate(rep.Violation{Kind: "oracle", Check: "C10.panic", Signature: fmt.Sprintf("C10.unsupported-cipher:%d:%s:first-answer-%s", id, res, first),
+				Input: fmt.Sprintf("honest TO2 of a device offering cipher suite %d (not one of the implemented tunnel ciphers)", id),
+				Impl: fmt.Sprintf("run: %s; answer to HelloDevice: Message-Type %q", res, first), PropertyFails: true})
+		}
+	}
 
 	// (A) every message type 0..255 without a session, with bodies no responder accepts, a null and an empty array
 	for t := 0; t <= 255; t++ {
